@@ -157,6 +157,10 @@ def mon_c03(tr):
                 stall = e[7]
         if stall is None or not (stall < initd[0][2]["tol_fun"]):
             return ("message", f"message says tol_fun stall but historic improvement {stall} >= tol_fun")
+        win = initd[0][2].get("tol_stall_iters")
+        if win is not None and not (last[1]["poll_iteration"] > win - 1):
+            return ("message", f"message says the function value stalled but only {last[1]['poll_iteration']} poll iterations were completed; the stall rule looks back "
+                               f"tol_stall_iters = {win} iterations (doubled for stochastic targets)")
     return None
 
 
